@@ -100,7 +100,9 @@ class CrossRootHistories:
 SN_OPS = [["ckd", 0], ["ckd", 1], ["ckd", 5], ["children", 0, 2], ["children", 1, 3], ["path", 0, 1],
           # requests that must be REFUSED on the public node (a hardened component), next to their well-formed neighbours: a refusal
           # must not leave anything behind that a later request picks up
-          ["path", 0, 5], ["path", H + 1, 5], ["path", H + 1, 6], ["path", 0, 6]]
+          ["path", 0, 5], ["path", H + 1, 5], ["path", H + 1, 6], ["path", 0, 6],
+          # children out of order, then in bulk
+          ["ckd", 3], ["ckd", 2], ["children", 0, 4]]
 
 
 class SameNodeHistories:
